@@ -1,5 +1,5 @@
+CONSTANTS MaxLen = 3 Sample = 1500
 INIT Init
 NEXT Next
-INVARIANT OrderIrrelevant
 CONSTRAINT Emit
 CHECK_DEADLOCK FALSE
